@@ -47,7 +47,7 @@ RULE = ('bounds texts: corpus of minimal strings, texts drawn from the grammar o
         'or is a near miss), a geometry-argument scenario that reaches the JSON or file branch, a command run; '
         'distinct = distinct (operation, text / scenario).')
 TRUSTED = [
-    'Python re: `\\d` / `\\s` of a str pattern are the Unicode Nd / White_Space classes tabulated in Ems.Cli.ndZeros / spaceCodes (compared with re over every code point on every run); the pattern text parses to the syntax tree Ems.Cli.boundsAst (proved: the tree prints to exactly the live pattern text; checked: bounds_re.fullmatch = model acceptance on every generated text)',
+    'Python re: `\\d` / `\\s` of a str pattern are the str.isdecimal() / str.isspace() character classes, tabulated in Ems.Cli.ndZeros / spaceCodes (compared with re over every code point on every run); the pattern text parses to the syntax tree Ems.Cli.boundsAst (proved: the tree prints to exactly the live pattern text; checked: bounds_re.fullmatch = model acceptance on every generated text)',
     'Python float(str) is the correctly rounded binary64 of the decimal numeral (modelled by Ems.Cli.toDouble in the driver; exact values are what the theorems speak about)',
     'json.loads, shapely.geometry.shape / box, pathlib.Path.suffix / exists: parameters of the model (their verdict is computed by calling them directly and passed on the op line)',
     'argparse: a type function raising ArgumentTypeError and an option value outside `choices` end in exit status 2 with a usage message',
@@ -231,6 +231,8 @@ def evaluate(ctx, case: dict, work: pathlib.Path | None = None):
         from emsarray.cli import CommandException
         from emsarray.cli.commands import export_geometry as eg
         name = case['name']
+        if not hasattr(eg.Command, 'guess_format'):
+            return None, 'guess_format is not a method any more: covered through main() only'
         try:
             out = eg.Command().guess_format(pathlib.Path('/x/' + name))
         except CommandException as e:
@@ -240,6 +242,18 @@ def evaluate(ctx, case: dict, work: pathlib.Path | None = None):
         return f'guess {codes(name)}', out
     if k == 'cmdname':
         return eval_cmdname(ctx, case)
+    if k == 'choices':
+        import importlib
+        m = importlib.import_module(f"emsarray.cli.commands.{case['module']}")
+        parser = argparse.ArgumentParser()
+        m.Command().add_arguments(parser)
+        action = next(a for a in parser._actions if case['option'] in a.option_strings)
+        out = ','.join(map(str, action.choices or []))
+        if case['option'] == '--missing-points' and action.default != (action.choices or [None])[0]:
+            out += f' default={action.default}'
+        if case['option'] == '--format' and action.default != 'auto':
+            out += f' default={action.default}'
+        return f"choices {case['option'].lstrip('-')}", out
     if k == 'exit':
         return eval_exit(ctx, case)
     if k == 'double':
@@ -288,7 +302,8 @@ def eval_geom(ctx, case: dict, work: pathlib.Path):
                 p = pathlib.Path(s)
                 exists = p.exists()
             except (ValueError, OSError):
-                exists = None
+                # a text the OS cannot even ask about (NUL byte, over-long name); irrelevant when the text is JSON
+                exists = None if jout == 'nojson' else False
             fgeom, loads = None, False
             if exists:
                 try:
@@ -637,6 +652,8 @@ def eval_cmd(ctx, case: dict, work: pathlib.Path):
                 ctx.count('cmd:write-scenario-stopped-by-library')
         if scenario == 'unknown-option':
             argv.append('--definitely-not-an-option')
+        if scenario == 'unknown-command':
+            argv = [case['bad_command']] + argv[1:]
         if scenario == 'missing-argument':
             argv = argv[:-1] if cmd != 'clip' else [cmd, str(inp)]
 
@@ -845,6 +862,8 @@ def table_cases(ctx) -> list:
         cases.append({'k': 'exit', 'exc': exc})
     for code in [None, 0, 1, 2, 3, 5, 64, 255]:
         cases.append({'k': 'exit', 'exc': 'CommandException', 'code': code})
+    cases.append({'k': 'choices', 'module': 'export_geometry', 'option': '--format'})
+    cases.append({'k': 'choices', 'module': 'extract_points', 'option': '--missing-points'})
     import pkgutil
     from emsarray.cli import commands
     for mi in pkgutil.iter_modules(commands.__path__):
@@ -1034,6 +1053,8 @@ def command_cases(ctx) -> list:
         dict(clip_base, scenario='no-intersection', step='clip', failure='uncaught', bounds=far,
              bounds_text=','.join(str(int(v)) for v in far)),
     ]
+    for bad_cmd in ['frobnicate', 'export_geometry', 'Clip', 'extract']:
+        fails.append(dict(clip_base, scenario='unknown-command', bad_command=bad_cmd, step='parse-arguments', failure='usage'))
     for bad in ['nope', '1,2,3', '{"type": "nope"}', '{}', 'missing.geojson', '1;2;3;4', '[1,2,3,4]', '']:
         fails.append(dict(clip_base, scenario='bad-geometry', bad_geometry=bad, step='parse-arguments', failure='usage'))
     rec2 = dataset_recipe(rng, 'ugrid', 'quick', for_clip=False)
